@@ -52,6 +52,10 @@ def instances(tier, seed):
     add("supercell:(1,2,1):S30-strongly-tilted", struct='S30', axes=[1], other=(0.2, 0, 0.55), dims=(1, 2, 1), cost=120)
     add("cell:as-long-as-the-pattern:S34:axis0", struct='S34', axes=[0], other=(0, 0.3, 0.2), cost=20)
     add("supercell:(1,1,2):S33-cell-as-long-as-the-pattern", struct='S33', axes=[2], other=(0.6, 0.3, 0), dims=(1, 1, 2), cost=60)
+    # listing order of two atoms that share a site (mixed occupancy / duplicated atom): as listed and with the site partners exchanged
+    add("perm:S36:two-atoms-at-identical-coordinates:as-listed", struct='S36', axes=[1], other=(0.2, 0, 0.6), cost=25)
+    add("perm:S36:two-atoms-at-identical-coordinates:site-partners-exchanged", struct='S36', axes=[2], other=(0.2, 0.45, 0), perm=[4, 1, 2, 3, 0, 5, 6, 7, 9, 8], cost=25)
+    add("cell:off-plane-atom-half-a-cell-edge-above-the-plane:S35:axis2", struct='S35', axes=[2], other=(0.1, 0.3, 0), cost=20)
     add("patpose:id:S23:two-fold-about-own-axis", struct='S23', axes=[1], other=(0.3, 0, 0.6), cost=20)
     add("patpose:p3:S23:two-fold-about-own-axis", struct='S23', axes=[1], other=(0.3, 0, 0.6), pat_pose='p3', pat_translate='sym', cost=20)
     add("hints:012:S23:two-fold-about-own-axis", struct='S23', axes=[2], other=(0.3, 0.2, 0), axisp1_idx=0, axisp2_idx=1, opoint_idx=2, cost=20)
